@@ -5,6 +5,11 @@ goto->t, if-eqz->t, packed-switch->{t,u}, sparse-switch->{t,u}}, t <= u ranging 
 the slot itself, the first instruction, the appended final return-void, duplicate switch targets, targets that coincide
 with the fall-through side); switch payloads 4-aligned behind the final return.  Plus every method of the shipped DEX
 files (quick: classes.dex) with targets decoded by the independent decoder gen/dalvik.
+Additional plans (checks/cfgcommon.extra_plans): two packed or two sparse switches sharing ONE payload; payload tables
+in the MIDDLE of the code (jumped over by a goto/16); the set_instructions() HISTORY family (analyse, ONE edit of the
+instruction list -- prepend 1 nop, prepend 2 nops, nop behind the final return, list replaced by itself --, NEW
+MethodAnalysis judged against the reference decoded from the edited bytes; keys end in ":after:set_instructions";
+histories that make a switch offset 2 mod 4 are counted, not judged).
 Oracle (ref/cfg.judge_c11): for every basic block, the SET of blocks in `childs` equals the blocks containing the
 in-method targets of the block's last instruction -- next block for fall-through and for the not-taken side of if/switch,
 the jump target for goto / taken if, every case target for switches, nothing after return/throw -- and the set of
@@ -15,6 +20,7 @@ should a tree add them, edges that are exactly handler blocks of a try covering 
 from checks import cfgcommon as CC
 from ref import cfg as R
 
+HISTORY_SKIP_UNALIGNED = True
 PROPERTY = "C11"
 LEVEL = "exploration"
 RULE = ("all skeletons of <=3 (thorough <=4) slots over an 8-kind slot alphabet, branch and switch targets t<=u over all "
@@ -42,7 +48,7 @@ _ME = "checks.c11"
 
 def plans(ctx):
     top = 4 if ctx.thorough else 3
-    return [{"id": "plain-n%d" % n, "n": n, "kinds": "PTRXGIKS"} for n in range(0, top + 1)]
+    return [{"id": "plain-n%d" % n, "n": n, "kinds": "PTRXGIKS"} for n in range(0, top + 1)] + CC.extra_plans(ctx)
 
 
 def space(ctx):
